@@ -576,6 +576,13 @@ theorem export_never_overwrites_file {T : Type} (W : CliM.World T) (fuel : Nat) 
   | none => exact h
   | some t => exact CliM.runTextIO_keeps W fuel io ord t fs q c h
 
+/-! scope note for the three statements that follow (fourth audit): `ord` is a PARAMETER - the statements hold for
+every `ord`; the written text is the text serde_json produces exactly when `ord` lists the two hash maps' entries
+(`ValidOrders o ord`, as in `RunsIO` / `export_never_overwrites_rel`). Paths are compared as texts (see `CliIO.lean`).
+For `--import` the clauses about a run that panics before the export speak about JSON ERRORS; on an arbitrary JSON
+text that parses but is not the export of a well-formed object the Rust `fix_import` can panic where the model goes
+on (disclaimed in `CliIO.lean`): the import clauses are claimed for exports of well-formed objects. -/
+
 /-- **a run writes at most one new path, the requested one**: the file system afterwards is the one
 before, or the one before plus ONE binding: for the path given with `--export`, which was free, in the
 naive arm, holding the compact JSON text of the object the arm built (`Json.print`, the two hash maps in
